@@ -24,6 +24,16 @@ pub proof fn axiom_nonzero_ext(a: NonZeroUsize, b: NonZeroUsize)
 {
 }
 
+/// A `Vec<Node<T>>` cannot hold `usize::MAX` elements: its allocation is bounded by `isize::MAX`
+/// bytes and a `Node<T>` is larger than one byte (five link fields).  So the documented
+/// "Too many nodes in the arena" panic of `new_node` is unreachable.
+#[verifier::external_body]
+pub proof fn axiom_vec_node_len<T>(v: &Vec<Node<T>>)
+    ensures
+        v@.len() < usize::MAX,
+{
+}
+
 // derived `PartialEq` on plain data is structural equality (R6)
 impl vstd::std_specs::cmp::PartialEqSpecImpl for NodeId {
     open spec fn obeys_eq_spec() -> bool {
@@ -189,7 +199,8 @@ pub open spec fn data_ok<T>(s: Seq<Node<T>>) -> bool {
     forall|i: int| 0 <= i < s.len() ==> ((#[trigger] s[i]).stamp.removed() <==> !(s[i].data is Data))
 }
 
-pub open spec fn free_list<T>(s: Seq<Node<T>>, first: Option<usize>, last: Option<usize>, fl: Seq<int>) -> bool {
+/// the linked structure of the free list: `fl` is the sequence of free slots, oldest first
+pub open spec fn free_chain<T>(s: Seq<Node<T>>, first: Option<usize>, last: Option<usize>, fl: Seq<int>) -> bool {
     &&& fl.no_duplicates()
     &&& forall|k: int| 0 <= k < fl.len() ==> 0 <= #[trigger] fl[k] < s.len()
     &&& (fl.len() == 0 ==> first is None && last is None)
@@ -202,8 +213,24 @@ pub open spec fn free_list<T>(s: Seq<Node<T>>, first: Option<usize>, last: Optio
                 None
             },
         ) && s[fl[k]].stamp.can_reuse()
-    // no slot is lost: every removed slot that can still be reused is in the list
-    &&& forall|i: int| 0 <= i < s.len() && (#[trigger] s[i]).stamp.can_reuse() ==> fl.contains(i)
+}
+
+/// no slot is lost: every removed slot that can still be reused is in the list
+pub open spec fn fl_complete<T>(s: Seq<Node<T>>, fl: Seq<int>) -> bool {
+    forall|i: int| 0 <= i < s.len() && (#[trigger] s[i]).stamp.can_reuse() ==> fl.contains(i)
+}
+
+#[verifier::opaque]
+pub open spec fn free_list<T>(s: Seq<Node<T>>, first: Option<usize>, last: Option<usize>, fl: Seq<int>) -> bool {
+    free_chain(s, first, last, fl) && fl_complete(s, fl)
+}
+
+/// `free_list` with one popped slot still waiting to be recycled (inside `new_node` only)
+#[verifier::opaque]
+pub open spec fn free_list_popped<T>(s: Seq<Node<T>>, first: Option<usize>, last: Option<usize>, fl: Seq<int>, x: int) -> bool {
+    &&& free_chain(s, first, last, fl)
+    &&& forall|i: int| 0 <= i < s.len() && i != x && (#[trigger] s[i]).stamp.can_reuse() ==> fl.contains(i)
+    &&& 0 <= x < s.len() && s[x].stamp.can_reuse() && !(s[x].data is Data) && !fl.contains(x)
 }
 
 impl<T> Arena<T> {
@@ -221,7 +248,6 @@ impl<T> Arena<T> {
         &&& self.acyclic()
         &&& data_ok(self.nodes@)
         &&& self.fl_ok()
-        &&& self.nodes@.len() < usize::MAX
     }
 }
 
@@ -241,6 +267,7 @@ pub proof fn lemma_payload_frame_wf<T>(o: Seq<Node<T>>, n: Seq<Node<T>>, first: 
         data_ok(o) ==> data_ok(n),
         forall|fl: Seq<int>| free_list(o, first, last, fl) ==> free_list(n, first, last, fl),
 {
+    reveal(free_list);
     assert forall|fl: Seq<int>| free_list(o, first, last, fl) implies free_list(n, first, last, fl) by {
         assert forall|k: int| 0 <= k < fl.len() implies (#[trigger] n[fl[k]]).data == NodeData::<T>::NextFree(
             if k + 1 < fl.len() {
@@ -260,5 +287,272 @@ pub proof fn lemma_payload_frame_wf<T>(o: Seq<Node<T>>, n: Seq<Node<T>>, first: 
             assert(same_payload(n[i], o[i]));
         }
     }
+}
+
+/// `#[derive(Default)]` on `struct NodeStamp(i16)` yields generation 0 (R6)
+pub assume_specification[ <NodeStamp as Default>::default ]() -> (r: NodeStamp)
+    ensures
+        r.0 == 0,
+;
+
+pub proof fn lemma_empty_wf<T>()
+    ensures
+        forall|a: Arena<T>| a.nodes@.len() == 0 && a.first_free_slot is None && a.last_free_slot is None ==> #[trigger] a.wf(),
+{
+    assert forall|a: Arena<T>| a.nodes@.len() == 0 && a.first_free_slot is None && a.last_free_slot is None implies #[trigger] a.wf() by {
+        let w = Ranks { depth: |i: int| 0nat, rem: |i: int| 0nat, pos: |i: int| 0nat, bound: 0 };
+        assert(ranked(a.nodes@, w));
+        let fl = Seq::<int>::empty();
+        reveal(free_list);
+        assert(free_list(a.nodes@, a.first_free_slot, a.last_free_slot, fl));
+    }
+}
+
+/// what the exec code may read off the head and tail of the free list
+pub proof fn lemma_fl_ends<T>(s: Seq<Node<T>>, first: Option<usize>, last: Option<usize>, fl: Seq<int>)
+    requires
+        free_list(s, first, last, fl),
+    ensures
+        first is None <==> fl.len() == 0,
+        last is None <==> fl.len() == 0,
+        fl.len() > 0 ==> first == Some(fl[0] as usize) && last == Some(fl[fl.len() - 1] as usize) && 0 <= fl[0] < s.len()
+            && 0 <= fl[fl.len() - 1] < s.len() && s[fl[0]].data is NextFree && s[fl[0]].stamp.can_reuse() && s[fl[fl.len()
+            - 1]].stamp.can_reuse(),
+        forall|i: int| 0 <= i < s.len() && !(#[trigger] s[i]).stamp.can_reuse() ==> !fl.contains(i),
+{
+    reveal(free_list);
+    assert forall|i: int| 0 <= i < s.len() && !(#[trigger] s[i]).stamp.can_reuse() implies !fl.contains(i) by {
+        if fl.contains(i) {
+            let k = choose|k: int| 0 <= k < fl.len() && fl[k] == i;
+            assert(s[fl[k]].stamp.can_reuse());
+        }
+    }
+}
+
+/// popping the head of the free list (the nodes are untouched)
+pub proof fn lemma_fl_pop<T>(s: Seq<Node<T>>, first: Option<usize>, last: Option<usize>, fl: Seq<int>, nfirst: Option<usize>, nlast: Option<usize>)
+    requires
+        free_list(s, first, last, fl),
+        fl.len() > 0,
+        s[fl[0]].data == NodeData::<T>::NextFree(nfirst),
+        nlast == (if nfirst is None { None } else { last }),
+        s.len() <= usize::MAX,
+    ensures
+        free_list_popped(s, nfirst, nlast, fl.drop_first(), fl[0]),
+{
+    reveal(free_list);
+    reveal(free_list_popped);
+    let t = fl.drop_first();
+    assert forall|k: int| 0 <= k < t.len() implies (#[trigger] s[t[k]]).data == NodeData::<T>::NextFree(
+        if k + 1 < t.len() { Some(t[k + 1] as usize) } else { None }) && s[t[k]].stamp.can_reuse() by {
+        assert(t[k] == fl[k + 1]);
+        assert(s[fl[k + 1]].stamp.can_reuse());
+    }
+    assert(t.no_duplicates()) by {
+        assert forall|p: int, q: int| 0 <= p < t.len() && 0 <= q < t.len() && p != q implies t[p] != t[q] by {
+            assert(t[p] == fl[p + 1] && t[q] == fl[q + 1]);
+        }
+    }
+    assert forall|k: int| 0 <= k < t.len() implies 0 <= #[trigger] t[k] < s.len() by {
+        assert(t[k] == fl[k + 1]);
+    }
+    assert(s[fl[0]].stamp.can_reuse());
+    if fl.len() > 1 {
+        assert(t[0] == fl[1]);
+        assert(t[t.len() - 1] == fl[fl.len() - 1]);
+    }
+    assert forall|i: int| 0 <= i < s.len() && i != fl[0] && (#[trigger] s[i]).stamp.can_reuse() implies t.contains(i) by {
+        let k = choose|k: int| 0 <= k < fl.len() && fl[k] == i;
+        assert(k > 0);
+        assert(t[k - 1] == i);
+    }
+    assert(!t.contains(fl[0])) by {
+        if t.contains(fl[0]) {
+            let k = choose|k: int| 0 <= k < t.len() && t[k] == fl[0];
+            assert(t[k] == fl[k + 1]);
+        }
+    }
+}
+
+/// pushing slot `x` (live in `o`, removed and reuseable in `n`) at the tail of the free list
+pub proof fn lemma_fl_push<T>(o: Seq<Node<T>>, n: Seq<Node<T>>, first: Option<usize>, last: Option<usize>, fl: Seq<int>, x: int, nfirst: Option<usize>, nlast: Option<usize>)
+    requires
+        free_list(o, first, last, fl),
+        0 <= x < o.len(),
+        o.len() <= usize::MAX,
+        !o[x].stamp.removed(),
+        n.len() == o.len(),
+        n[x].stamp.can_reuse(),
+        n[x].data == NodeData::<T>::NextFree(None),
+        forall|i: int| 0 <= i < o.len() && i != x ==> (#[trigger] n[i]).stamp == o[i].stamp,
+        fl.len() > 0 ==> n[fl[fl.len() - 1]].data == NodeData::<T>::NextFree(Some(x as usize)) && nfirst == first,
+        fl.len() == 0 ==> nfirst == Some(x as usize),
+        forall|i: int| 0 <= i < o.len() && i != x && (fl.len() == 0 || i != fl[fl.len() - 1]) ==> (#[trigger] n[i]).data == o[i].data,
+        nlast == Some(x as usize),
+    ensures
+        free_list(n, nfirst, nlast, fl.push(x)),
+{
+    reveal(free_list);
+    let t = fl.push(x);
+    assert(!fl.contains(x)) by {
+        if fl.contains(x) {
+            let k = choose|k: int| 0 <= k < fl.len() && fl[k] == x;
+            assert(o[fl[k]].stamp.can_reuse());
+        }
+    }
+    assert(t.no_duplicates()) by {
+        assert forall|p: int, q: int| 0 <= p < t.len() && 0 <= q < t.len() && p != q implies t[p] != t[q] by {
+            if p < fl.len() && q < fl.len() {
+                assert(t[p] == fl[p] && t[q] == fl[q]);
+            } else if p < fl.len() {
+                assert(fl.contains(t[p]));
+            } else {
+                assert(fl.contains(t[q]));
+            }
+        }
+    }
+    assert forall|k: int| 0 <= k < t.len() implies (#[trigger] n[t[k]]).data == NodeData::<T>::NextFree(
+        if k + 1 < t.len() { Some(t[k + 1] as usize) } else { None }) && n[t[k]].stamp.can_reuse() by {
+        if k < fl.len() {
+            assert(t[k] == fl[k]);
+            assert(o[fl[k]].stamp.can_reuse());
+            assert(fl.contains(fl[k]));
+            if k + 1 < fl.len() {
+                assert(t[k + 1] == fl[k + 1]);
+                assert(fl[k] != fl[fl.len() - 1]);
+            }
+        }
+    }
+    assert forall|i: int| 0 <= i < n.len() && (#[trigger] n[i]).stamp.can_reuse() implies t.contains(i) by {
+        if i == x {
+            assert(t[fl.len() as int] == x);
+        } else {
+            assert(o[i].stamp.can_reuse());
+            let k = choose|k: int| 0 <= k < fl.len() && fl[k] == i;
+            assert(t[k] == i);
+        }
+    }
+    assert forall|k: int| 0 <= k < t.len() implies 0 <= #[trigger] t[k] < n.len() by {
+        if k < fl.len() { assert(t[k] == fl[k]); }
+    }
+    if fl.len() > 0 { assert(t[0] == fl[0]); }
+}
+
+/// the free list is untouched by freeing a slot whose generation counter is exhausted
+pub proof fn lemma_fl_retire<T>(o: Seq<Node<T>>, n: Seq<Node<T>>, first: Option<usize>, last: Option<usize>, fl: Seq<int>, x: int)
+    requires
+        free_list(o, first, last, fl),
+        0 <= x < o.len(),
+        !o[x].stamp.removed(),
+        n.len() == o.len(),
+        !n[x].stamp.can_reuse(),
+        forall|i: int| 0 <= i < o.len() && i != x ==> (#[trigger] n[i]).stamp == o[i].stamp && n[i].data == o[i].data,
+    ensures
+        free_list(n, first, last, fl),
+{
+    reveal(free_list);
+    assert forall|k: int| 0 <= k < fl.len() implies fl[k] != x by {
+        assert(o[fl[k]].stamp.can_reuse());
+    }
+    assert forall|k: int| 0 <= k < fl.len() implies (#[trigger] n[fl[k]]).data == NodeData::<T>::NextFree(
+        if k + 1 < fl.len() { Some(fl[k + 1] as usize) } else { None }) && n[fl[k]].stamp.can_reuse() by {
+        assert(o[fl[k]].stamp.can_reuse());
+    }
+    assert forall|i: int| 0 <= i < n.len() && (#[trigger] n[i]).stamp.can_reuse() implies fl.contains(i) by {
+        assert(o[i].stamp.can_reuse());
+    }
+}
+
+/// the popped slot becomes live again (recycled)
+pub proof fn lemma_fl_reuse<T>(o: Seq<Node<T>>, n: Seq<Node<T>>, first: Option<usize>, last: Option<usize>, fl: Seq<int>, x: int)
+    requires
+        free_list_popped(o, first, last, fl, x),
+        n.len() == o.len(),
+        !n[x].stamp.removed(),
+        forall|i: int| 0 <= i < o.len() && i != x ==> (#[trigger] n[i]).stamp == o[i].stamp && n[i].data == o[i].data,
+    ensures
+        free_list(n, first, last, fl),
+{
+    reveal(free_list);
+    reveal(free_list_popped);
+    assert forall|k: int| 0 <= k < fl.len() implies fl[k] != x by {
+        assert(fl.contains(fl[k]));
+    }
+    assert forall|k: int| 0 <= k < fl.len() implies (#[trigger] n[fl[k]]).data == NodeData::<T>::NextFree(
+        if k + 1 < fl.len() { Some(fl[k + 1] as usize) } else { None }) && n[fl[k]].stamp.can_reuse() by {
+        assert(o[fl[k]].stamp.can_reuse());
+    }
+    assert forall|i: int| 0 <= i < n.len() && (#[trigger] n[i]).stamp.can_reuse() implies fl.contains(i) by {
+        assert(o[i].stamp.can_reuse());
+    }
+}
+
+/// appending a fresh live slot does not disturb the free list
+pub proof fn lemma_fl_grow<T>(o: Seq<Node<T>>, n: Seq<Node<T>>, first: Option<usize>, last: Option<usize>, fl: Seq<int>)
+    requires
+        free_list(o, first, last, fl),
+        n.len() == o.len() + 1,
+        !n[o.len() as int].stamp.removed(),
+        forall|i: int| 0 <= i < o.len() ==> (#[trigger] n[i]) == o[i],
+    ensures
+        free_list(n, first, last, fl),
+{
+    reveal(free_list);
+    assert forall|k: int| 0 <= k < fl.len() implies (#[trigger] n[fl[k]]).data == NodeData::<T>::NextFree(
+        if k + 1 < fl.len() { Some(fl[k + 1] as usize) } else { None }) && n[fl[k]].stamp.can_reuse() by {
+        assert(o[fl[k]].stamp.can_reuse());
+        assert(n[fl[k]] == o[fl[k]]);
+    }
+    assert forall|i: int| 0 <= i < n.len() && (#[trigger] n[i]).stamp.can_reuse() implies fl.contains(i) by {
+        assert(n[i] == o[i]);
+    }
+}
+
+/// links, ranks and payload tags after a node has been allocated in slot `x`
+pub proof fn lemma_alloc_links<T>(o: Seq<Node<T>>, n: Seq<Node<T>>, x: int)
+    requires
+        links_ok(o),
+        exists|w: Ranks| ranked(o, w),
+        data_ok(o),
+        0 <= x <= o.len(),
+        x < o.len() ==> n.len() == o.len() && o[x].stamp.removed(),
+        x == o.len() ==> n.len() == o.len() + 1,
+        forall|i: int| 0 <= i < o.len() && i != x ==> (#[trigger] n[i]) == o[i],
+        no_links(n[x]),
+        !n[x].stamp.removed(),
+        n[x].data is Data,
+    ensures
+        links_ok(n),
+        exists|w: Ranks| ranked(n, w),
+        data_ok(n),
+{
+    let w = choose|w: Ranks| ranked(o, w);
+    let w2 = Ranks { depth: |i: int| if i == x { 0nat } else { (w.depth)(i) }, rem: w.rem, pos: w.pos, bound: w.bound };
+    assert forall|i: int| 0 <= i < n.len() implies #[trigger] ranked_at(n, w2, i) by {
+        if i != x {
+            assert(ranked_at(o, w, i));
+            assert(node_ok(o, i));
+        }
+    }
+    assert(ranked(n, w2));
+    assert forall|i: int| 0 <= i < n.len() implies #[trigger] node_ok(n, i) by {
+        if i != x {
+            assert(node_ok(o, i));
+        }
+    }
+    assert forall|i: int| 0 <= i < n.len() implies ((#[trigger] n[i]).stamp.removed() <==> !(n[i].data is Data)) by {
+        if i != x {
+            assert(n[i] == o[i]);
+        }
+    }
+}
+
+pub proof fn lemma_fl_popped_slot<T>(s: Seq<Node<T>>, first: Option<usize>, last: Option<usize>, fl: Seq<int>, x: int)
+    requires
+        free_list_popped(s, first, last, fl, x),
+    ensures
+        0 <= x < s.len() && s[x].stamp.can_reuse() && !(s[x].data is Data),
+{
+    reveal(free_list_popped);
 }
 
